@@ -65,3 +65,45 @@ def private_module(dotted):
     mod.__package__ = dotted.rsplit(".", 1)[0]
     spec.loader.exec_module(mod)
     return mod
+
+
+def reentered_at(f, k, g):
+    """-> (result of f, result of g or None): f() runs; when the k-th line of code of the tree under test (inside f) is about to
+    execute, g() is run to completion in the same thread - what a signal handler, a callback or (as far as shared state goes)
+    another thread scheduled at that moment does - and f then carries on.  Functions of their arguments do not care; code that
+    parks intermediate results in module-level, class-level or object-level scratch space shared with g does."""
+    src = os.path.realpath(tree.SRC) + os.sep
+    orch = os.path.realpath(tree.ORCH)
+    seen = [0]
+    out = [None, False]
+    cache = {}
+
+    def in_tree(fn):
+        v = cache.get(fn)
+        if v is None:
+            rp = os.path.realpath(fn) if not fn.startswith("<") else fn
+            v = cache[fn] = rp.startswith(src) or rp == orch
+        return v
+
+    def local(frame, event, arg):
+        if event == "line" and not out[1]:
+            seen[0] += 1
+            if seen[0] == k:
+                sys.settrace(None)
+                out[1] = True
+                out[0] = g()
+                return None
+        return local if not out[1] else None
+
+    def glob(frame, event, arg):
+        if event == "call" and not out[1] and in_tree(frame.f_code.co_filename):
+            return local
+        return None
+
+    old = sys.gettrace()
+    sys.settrace(glob)
+    try:
+        r = f()
+    finally:
+        sys.settrace(old)
+    return r, out[0], out[1]
